@@ -105,6 +105,12 @@ class KexDH:  # pragma: nocover
             self.out.d("KexDH.recv_reply(): received package_type == -1.")
             return None
 
+        try:
+            return self.__parse_reply(payload, parse_host_key_size)
+        except (struct.error, ValueError, IndexError) as e:  # (UnicodeDecodeError is a ValueError.)
+            raise KexDHException('Error while parsing the host key: %s' % str(e)) from None
+
+    def __parse_reply(self, payload: bytes, parse_host_key_size: bool) -> bytes:
         # Get the host key blob, F, and signature.
         ptr = 0
         hostkey, _, ptr = KexDH.__get_bytes(payload, ptr)
@@ -411,8 +417,12 @@ class KexGroupExchange(KexDH):
 
             g = int(binascii.hexlify(payload[ptr:ptr + g_len]), 16)
             ptr += g_len
-        except struct.error:
+        except (struct.error, ValueError):
             raise KexDHException("Error while parsing modulus and generator during GEX init: %s" % str(traceback.format_exc())) from None
+
+        # A modulus this small cannot be used for the exchange (and is not a valid group anyway).
+        if p < 7:
+            raise KexDHException("Invalid modulus received during GEX init: %d" % p)
 
         # Now that we got the generator and modulus, perform the DH exchange
         # like usual.
